@@ -774,6 +774,8 @@ def finish(ctx):
     ctx.state["reach"].into(ctx)
     if ctx.shard == 0:
         ctx.note("matrix_cells_expected", len(cells()))
+        ctx.note("same_name_orders_enumerated_per_configuration", len(same_name_orders()))
+        ctx.require(ctx.events.get("same_name_sequences", 0) > 0, "no same-name descriptor sequence was run")
     if ctx.evaluations:
         for q in ANCHORS[:5]:
             ctx.require(ctx.reach.get(q, 0) > 0, "anchor %s was never entered" % q)
